@@ -13,6 +13,11 @@ CHECKS = {
         "design_ref": "DESIGN.md §5.2",
         "note": "Trusted: the sandbox/seam code in vsim/child.py and runner.py; mypy/griffe internals are real code but their own address-dependent behaviour is outside the seams. The workload (generated packages rich in ties + the repo's three test packages) bounds which ties are exercised.",
     },
+    "C16": {
+        "text": "Seeded histories on state that survives between operations. (a) After one real get_api the child drives 8-13 seeded operations (full generations with either naming flag, single-module renderings, module sequences in permuted order, writes, JSON dumps) against ONE live API model; after every operation api.to_dict() must equal its initial value, every generation must equal the reference generation from a pristine copy, every module text must be independent of what was rendered before, and members inlined from one private base into several public classes must be rendered identically. (b) Histories RUN;RUN, RUN(injected I/O error);RUN and RUN(process death at a stratified mutation event);RUN over one output directory: the final tree must equal, path for path and byte for byte, the tree of a single clean run. Exploration evidence, not proof.",
+        "design_ref": "DESIGN.md §5.5",
+        "note": "Trusted: seams and fault injection in vsim/child.py; the pristine deep copy of the model as stand-in for a fresh model (its to_dict() equality is checked in every case). Only process death is modelled, not power loss. Crash/fault points are sampled (stratified over mkdir/open/write/close events), not enumerated, in the quick tier.",
+    },
 }
 
 NOT_APPLICABLE = {
